@@ -17,6 +17,10 @@ The mean function's spatial gradient is computed BY THE MODEL from the
 hyper-parameters, never read from the implementation.  The kernel terms A, R, K_qx
 are tied to the formulas the analysis theorems are about by coq-interval goals.
 
+Every case is history-aware: gradient / spatial_derivatives / __call__ are first used with
+other hyper-parameters and other query points held in arrays that are then overwritten in
+place; the compared calls use those same array objects.
+
 Property oracle (used on every disagreement, and as a second opinion [R] on a slice of
 agreeing cases): five-point central differences of the implementation's own __call__
 (mean and sigma^2) with an exact dyadic step, tolerance 1e-5 relative; symmetry /
@@ -187,10 +191,33 @@ def run_impl(case):
             warnings.simplefilter("ignore")
             gp = build(case)
             parg, p = query_arg(case)
+            # history: the methods are first used with other hyper-parameters and other query
+            # points held in arrays that are then overwritten IN PLACE; the compared calls use
+            # those same objects (anything cached by identity / under the caller's array is stale)
+            stage = "warm-up calls with other hyper-parameters and query points"
+            theta0 = np.array(MX.unhex(case["hyperpars"]), dtype=float)
+            buf = theta0 + 0.25
+            qwarm = (np.array(parg, dtype=float) + 0.375) if isinstance(parg, np.ndarray) else \
+                [[v + 0.375 for v in row] for row in parg]
+            try:
+                gp.set_hyperparameters(buf)
+                gp(qwarm)
+                gp.gradient(qwarm)
+                gp.spatial_derivatives(qwarm)
+            except np.linalg.LinAlgError:
+                pass                      # the perturbed values need not be well conditioned
+            buf[:] = theta0
+            gp.set_hyperparameters(buf)
+            if isinstance(parg, np.ndarray):
+                qwarm[...] = parg
+                parg = qwarm
             stage = "gradient"
             gm, gc = gp.gradient(parg)
             stage = "spatial_derivatives"
             dm, dv = gp.spatial_derivatives(parg)
+            if isinstance(parg, np.ndarray) and not np.array_equal(np.asarray(parg).reshape(p.shape), p):
+                return {"status": "mutated", "stage": "query points",
+                        "error": "gradient()/spatial_derivatives() modified the caller's query array"}
             stage = "reading the kernel terms"
             chp = gp.cov_hyperpars
             gm, gc, dm, dv = (np.asarray(a, dtype=float) for a in (gm, gc, dm, dv))
